@@ -587,6 +587,7 @@ func c07API(run *ev.Run, seed int64, count int, cs ev.Case) {
 		return
 	}
 	dc := dcmi.NewSessionCommander(sess)
+	lunN := 0
 	type api struct {
 		spec string
 		call func() (any, error)
@@ -605,6 +606,17 @@ func c07API(run *ev.Run, seed int64, count int, cs ev.Case) {
 		{"GetSDRRepositoryInfoRsp", func() (any, error) { return sess.GetSDRRepositoryInfo(ctx) }},
 		{"ReserveSDRRepositoryRsp", func() (any, error) { return sess.ReserveSDRRepository(ctx) }},
 		{"GetSensorReadingRsp", func() (any, error) { return sess.GetSensorReading(ctx, 7) }},
+		{"GetSensorReadingRsp", func() (any, error) {
+			// a sensor behind another logical unit of the BMC, as Full Sensor Records with an owner LUN name them
+			lunN++
+			cmd := &ipmi.GetSensorReadingCmd{Req: ipmi.GetSensorReadingReq{Number: uint8(lunN)}, OwnerLUN: ipmi.LUN(1 + lunN%3)}
+			lctx, lcancel := e.LimitCtx(6)
+			defer lcancel()
+			if err := bmc.ValidateResponse(sess.SendCommand(lctx, cmd)); err != nil {
+				return nil, err
+			}
+			return &cmd.Rsp, nil
+		}},
 		{"SetSessionPrivilegeLevelRsp", func() (any, error) {
 			p, err := sess.GetSessionPrivilegeLevel(ctx)
 			return &ipmi.SetSessionPrivilegeLevelRsp{PrivilegeLevel: p}, err
